@@ -11,6 +11,7 @@ import re
 import sys
 
 _hits = set()
+_branches = set()
 _root = None
 _on = False
 
@@ -33,7 +34,20 @@ def start(root):
         return mon.DISABLE
 
     mon.register_callback(mon.COVERAGE_ID, mon.events.LINE, on_line)
-    mon.set_events(mon.COVERAGE_ID, mon.events.LINE)
+    events = mon.events.LINE
+    if os.environ.get("VMON_BRANCHES"):
+        # both outcomes of every conditional jump (tools/coverage.py --branches): a location of the tree under
+        # observation is never disabled, so that the second outcome is still seen
+        def on_branch(code, src, dst):
+            fn = code.co_filename
+            if not fn.startswith(_root):
+                return mon.DISABLE
+            _branches.add((code, src, dst))
+            return None
+
+        mon.register_callback(mon.COVERAGE_ID, mon.events.BRANCH, on_branch)
+        events |= mon.events.BRANCH
+    mon.set_events(mon.COVERAGE_ID, events)
     _on = True
     return True
 
@@ -80,5 +94,25 @@ def dump(path):
     by_file = {}
     for f, ln in _hits:
         by_file.setdefault(f, []).append(ln)
+    out = {f: sorted(v) for f, v in by_file.items()}
+    if _branches:
+        import dis
+        starts = {}
+        br = {}
+        for code, src, dst in _branches:
+            if code not in starts:
+                ls = sorted((off, ln) for off, ln in dis.findlinestarts(code) if ln is not None)
+                starts[code] = ls
+
+            def line_of(off, ls=starts[code]):
+                cur = None
+                for o, ln in ls:
+                    if o > off:
+                        break
+                    cur = ln
+                return cur
+            rel = code.co_filename[len(_root):]
+            br.setdefault(rel, {}).setdefault(str(line_of(src)), set()).add(f"{src}->{dst}@{line_of(dst)}")
+        out["__branches__"] = {rel: {ln: sorted(v) for ln, v in d.items()} for rel, d in br.items()}
     with open(path, "w") as fh:
-        json.dump({f: sorted(v) for f, v in by_file.items()}, fh)
+        json.dump(out, fh)
